@@ -249,20 +249,23 @@ static int cmd_run(int argc, char **argv) {
     std::map<std::string, int> countOf; for (auto &v : viols) countOf[v.sig]++;
     int unknownViol = 0, knownViol = 0; std::string violJson; int handled = 0;
     for (auto &kv : firstOf) {
-        const Viol &v = kv.second; bool isKnown = false; std::string ktext;
-        for (auto &k : kn) if (k.property == sc->property && k.sig == kv.first) { isKnown = true; ktext = k.text; }
+        const Viol &v = kv.second; bool isKnown = false; std::string ktext; std::string sigFinal = kv.first;
         std::string replayPath; std::string detail; size_t opsBefore = 0, opsAfter = 0; int evals = 0;
         if (handled < 6) {
             handled++;
             Plan p = plan_for(*sc, seed, first + v.index, thorough); Plan bad = variant_plan(*sc, p, v.variant);
             EvalResult r1 = eval_child(*sc, bad), r2 = eval_child(*sc, bad);
-            if (r1.v.ok || r2.v.ok || r1.v.sig != kv.first || r2.v.sig != kv.first || r1.v.loghash != r2.v.loghash) {
+            // a memory error may be classified differently in a worker with a long heap history (e.g. 'unknown-crash' vs
+            // 'heap-buffer-overflow'): the fresh child is the reference, as long as it fails and does so reproducibly
+            std::string sigUsed = kv.first;
+            if (!r1.v.ok && !r2.v.ok && r1.v.sig == r2.v.sig && r1.v.loghash == r2.v.loghash && r1.v.sig != kv.first && r1.crashed && kv.first.find("/crash/") != std::string::npos) { fprintf(stderr, "note: run %llu: worker reported %s, fresh process reproduces as %s\n", (unsigned long long)v.index, kv.first.c_str(), r1.v.sig.c_str()); sigUsed = r1.v.sig; }
+            if (r1.v.ok || r2.v.ok || r1.v.sig != sigUsed || r2.v.sig != sigUsed || r1.v.loghash != r2.v.loghash) {
                 fprintf(stderr, "GATE FAILED: run %llu variant %u sig %s does not reproduce identically (r1 ok=%d sig=%s lh=%llu; r2 ok=%d sig=%s lh=%llu)\n", (unsigned long long)v.index, v.variant, kv.first.c_str(), r1.v.ok, r1.v.sig.c_str(), (unsigned long long)r1.v.loghash, r2.v.ok, r2.v.sig.c_str(), (unsigned long long)r2.v.loghash);
                 machinery++; continue;
             }
-            opsBefore = bad.ops.size(); Plan mini = minimise(*sc, bad, kv.first, evals); opsAfter = mini.ops.size();
+            sigFinal = sigUsed; opsBefore = bad.ops.size(); Plan mini = minimise(*sc, bad, sigUsed, evals); opsAfter = mini.ops.size();
             EvalResult rm = eval_child(*sc, mini, false); detail = rm.v.detail;
-            Hash h; h.str(kv.first); char name[256]; snprintf(name, sizeof name, "%s/replays/%s-%s-%08llx-%llu.json", outdir.c_str(), sc->property.c_str(), BUILD, (unsigned long long)(h.h & 0xffffffff), (unsigned long long)v.index);
+            Hash h; h.str(sigUsed); char name[256]; snprintf(name, sizeof name, "%s/replays/%s-%s-%08llx-%llu.json", outdir.c_str(), sc->property.c_str(), BUILD, (unsigned long long)(h.h & 0xffffffff), (unsigned long long)v.index);
             replayPath = name; write_file(replayPath, plan_json(mini));
             // fresh-process replay gate
             fflush(stdout); pid_t pid = fork();
@@ -270,10 +273,11 @@ static int cmd_run(int argc, char **argv) {
             int st = 0; waitpid(pid, &st, 0); bool reproduced = (WIFEXITED(st) && (WEXITSTATUS(st) == 1 || WEXITSTATUS(st) == 77 || WEXITSTATUS(st) == 78 || WEXITSTATUS(st) == 79)) || WIFSIGNALED(st);
             if (!reproduced) { fprintf(stderr, "GATE FAILED: minimised replay %s does not reproduce in a fresh process (status %d)\n", replayPath.c_str(), st); machinery++; continue; }
         }
-        if (isKnown) { knownViol++; printf("KNOWN-FINDING: property=%s %s [sig=%s runs=%d replay=%s]\n", sc->property.c_str(), ktext.c_str(), kv.first.c_str(), countOf[kv.first], replayPath.c_str()); }
-        else { unknownViol++; printf("VIOLATION property=%s replay=%s\n  sig=%s build=%s run=%llu variant=%u occurrences=%d ops %zu->%zu (%d candidates)\n  %s\n", sc->property.c_str(), replayPath.c_str(), kv.first.c_str(), BUILD, (unsigned long long)v.index, v.variant, countOf[kv.first], opsBefore, opsAfter, evals, detail.c_str()); }
+        for (auto &k : kn) if (k.property == sc->property && (k.sig == sigFinal || k.sig == kv.first)) { isKnown = true; ktext = k.text; }
+        if (isKnown) { knownViol++; printf("KNOWN-FINDING: property=%s %s [sig=%s runs=%d replay=%s]\n", sc->property.c_str(), ktext.c_str(), sigFinal.c_str(), countOf[kv.first], replayPath.c_str()); }
+        else { unknownViol++; printf("VIOLATION property=%s replay=%s\n  sig=%s build=%s run=%llu variant=%u occurrences=%d ops %zu->%zu (%d candidates)\n  %s\n", sc->property.c_str(), replayPath.c_str(), sigFinal.c_str(), BUILD, (unsigned long long)v.index, v.variant, countOf[kv.first], opsBefore, opsAfter, evals, detail.c_str()); }
         if (!violJson.empty()) violJson += ",";
-        violJson += "{\"sig\":\"" + jesc(kv.first) + "\",\"known\":" + (isKnown ? "true" : "false") + ",\"count\":" + std::to_string(countOf[kv.first]) + ",\"replay\":\"" + jesc(replayPath) + "\",\"detail\":\"" + jesc(detail.substr(0, 600)) + "\"}";
+        violJson += "{\"sig\":\"" + jesc(sigFinal) + "\",\"known\":" + (isKnown ? "true" : "false") + ",\"count\":" + std::to_string(countOf[kv.first]) + ",\"replay\":\"" + jesc(replayPath) + "\",\"detail\":\"" + jesc(detail.substr(0, 600)) + "\"}";
     }
     if (gaveUp) fprintf(stderr, "search stopped early: more than 40 crashing runs\n");
     double wall = now_s() - t0;
